@@ -659,9 +659,13 @@ def exact_check(c, o):
     if r["var"] == 0:
         return fails
     kappa = 1 + float(F(r["mean"]) ** 2 / r["var"])
-    if kappa > 1e10:
+    if kappa > 1e16:
         return fails
-    tol = 1e-13 * kappa + 1e-12
+    # The two-pass algorithms (deviations from the mean) lose n*eps*sqrt(kappa) relative to the
+    # spread, NOT eps*kappa: a tolerance proportional to kappa is exactly the error of the
+    # cancellation-prone one-pass formulas (sum x^2 - n mean^2) and would let them pass.
+    n_ = len(c["xs"])
+    tol = 1e-14 * n_ * (1 + math.sqrt(kappa)) + 1e-12
     # Natural magnitudes.  The reference is exact; the implementation computes in binary64 from
     # inputs (1/sigma^2, x/n) that are NOT exactly representable, so a statistic whose exact value is
     # 0 (or tiny by cancellation) is only reproduced up to rounding of its TERMS: every comparison
@@ -728,7 +732,7 @@ def exact_check(c, o):
     p = o.get("pair")
     if p and "cov" in r and r.get("vy", 0) > 0:
         ky = 1 + float((sum(F(unbits(y)) for y in c["pair"]["ys"]) / len(c["xs"])) ** 2 / r["vy"])
-        t2 = 1e-12 * max(kappa, ky)
+        t2 = 1e-13 * n_ * (1 + math.sqrt(max(kappa, ky))) + 1e-12
         if p["set"] != "ok":
             fail("infer:rejected:" + c["pair"]["mode"], "inferred covariance rejected although "
                  "|corr| <= 1 exactly", "reject:" + str(p["exc"]), r.get("corr"))
